@@ -220,6 +220,17 @@ static std::string normp(const std::string &q) {     // absolute, repeated slash
   if (!q.empty() && q[0] != '/' && g_cwd.empty()) return n.substr(1);
   return n;
 }
+static std::string collapse(const std::string &p) {   // repeated slashes and "." segments removed, NOT made absolute
+  bool abs = !p.empty() && p[0] == '/';
+  std::string n; size_t i = 0;
+  while (i < p.size()) {
+    size_t j = p.find('/', i); if (j == std::string::npos) j = p.size();
+    std::string seg = p.substr(i, j - i);
+    if (!seg.empty() && seg != ".") { if (!n.empty() || abs) n += '/'; n += seg; }
+    i = j + 1;
+  }
+  return n.empty() ? (abs ? "/" : ".") : n;
+}
 static Fault *find_fault(const char *kind, const char *path) {
   if (!tc || !tc->faults) return nullptr;
   for (auto &f : *tc->faults) if (!f.fired && f.kind == kind && (f.path.empty() || (path && normp(f.path) == normp(path)))) return &f;
@@ -457,6 +468,7 @@ struct CbCtx {
   std::set<long long> reject_idx;
   std::set<std::string> reject_base;
   std::set<std::string> reject_norm;
+  std::set<std::string> reject_spelled;
   long long calls = 0;
 };
 static thread_local CbCtx *t_expected_cb = nullptr;
@@ -473,6 +485,7 @@ static bool the_callback(const char *filename, const void *data) {
   if (m) {
     if (m->reject_paths.count(fn)) accept = false;
     if (!m->reject_norm.empty() && m->reject_norm.count(normp(fn))) accept = false;   // compared as normalised absolute paths
+    if (!m->reject_spelled.empty() && m->reject_spelled.count(collapse(fn))) accept = false;   // the caller's own spelling (relative stays relative)
     if (m->reject_idx.count(idx)) accept = false;
     size_t sl = fn.rfind('/');
     if (m->reject_base.count(sl == std::string::npos ? fn : fn.substr(sl + 1))) accept = false;
@@ -487,6 +500,7 @@ static void cb_setup(const json &op, CbCtx &c) {
   if (it->contains("reject_paths")) for (auto &p : (*it)["reject_paths"]) c.reject_paths.insert(subst_in(u2b(p.get<std::string>())));
   if (it->contains("reject_idx")) for (auto &p : (*it)["reject_idx"]) c.reject_idx.insert(p.get<long long>());
   if (it->contains("reject_norm")) for (auto &p : (*it)["reject_norm"]) c.reject_norm.insert(normp(subst_in(u2b(p.get<std::string>()))));
+  if (it->contains("reject_spelled")) for (auto &p : (*it)["reject_spelled"]) c.reject_spelled.insert(collapse(subst_in(u2b(p.get<std::string>()))));
   if (it->contains("reject_base")) for (auto &p : (*it)["reject_base"]) c.reject_base.insert(u2b(p.get<std::string>()));
 }
 
